@@ -83,6 +83,9 @@ class Batch:
         if self.budget_s:
             cmd += ["--budget-s", str(self.budget_s)]
         cmd += list(extra)
+        cdir = os.path.join(VERIF, "corpus", self.prop)
+        if os.path.isdir(cdir) and self.prop not in ("C13", "C18") and "--digests" not in extra:
+            cmd += ["--corpus", cdir]
         if self.emit_dir:
             f = os.path.join(self.emit_dir, "sc-%s-%d-%d.jsonl" % (self.variant, idx, frm))
             self.emitted.append(f)
@@ -279,6 +282,20 @@ def run_check(prop, tier, seed):
     # a failed self-check on a changed tree usually means that the tree reads memory it does not own; the main
     # batch then reports the violation itself. Only if nothing is found is it a harness error.
     log("determinism: " + (det_msg if det_ok else "FAILED: " + det_msg))
+    # ---- regression corpus: recorded scenarios (minimised replays of earlier findings on changed trees) are
+    # replayed first; on a tree where the property holds they all pass
+    corpus_hits = []
+    cdir = os.path.join(VERIF, "corpus", prop)
+    corpus_n = 0
+    if os.path.isdir(cdir):
+        v0 = plan[0][0] if plan[0][0] != "E" else "A"
+        rp0 = mini.Replayer(hb.command(v0), tmp, env=hb.run_env(v0))
+        for fn in sorted(os.listdir(cdir)):
+            corpus_n += 1
+            cls, viol, owned = rp0.run_file(os.path.join(cdir, fn))
+            if cls is not None and owned:
+                sc = json.load(open(os.path.join(cdir, fn)))["scenario"]
+                corpus_hits.append({"seed_index": -1, "seed": "corpus-" + fn[:-5], "variant": v0, "violation": viol, "scenario": sc})
     batches = []
     cap_s = float(os.environ.get("HBSIM_BUDGET_S", "0"))
     for v, n in plan:
@@ -298,10 +315,10 @@ def run_check(prop, tier, seed):
             b2.run_files([f for f in b.emitted if os.path.exists(f)])
             batches.append(b2)
     # ---- merge
-    tot = {"runs": 0, "executions": 0, "ops": 0, "callbacks": 0, "nontrivial_runs": 0, "refusals": 0, "alloc_calls": 0, "elements_created": 0, "enum_targets": 0, "enum_execs": 0}
+    tot = {"runs": 0, "executions": 0, "ops": 0, "callbacks": 0, "nontrivial_runs": 0, "refusals": 0, "alloc_calls": 0, "elements_created": 0, "enum_targets": 0, "enum_execs": 0, "corpus_seeded_runs": 0}
     probes, fired, cbs, foreign, worlds = {}, {}, {}, {}, {}
     sig_vals, state_vals = [], []
-    samples, violations, foreign_samples = [], [], []
+    samples, violations, foreign_samples = [], list(corpus_hits), []
     len_hist = [0] * 8
     truncated = False
     per_build = {}
@@ -405,6 +422,8 @@ def run_check(prop, tier, seed):
             "samples": samples if samples else [{"note": "no sample short enough was recorded"}],
             "simulated_runs": tot["runs"],
             "nontrivial_runs": tot["nontrivial_runs"],
+            "corpus_scenarios_replayed": corpus_n,
+            "corpus_seeded_runs": tot.get("corpus_seeded_runs", 0),
             "fault_enumeration_targets": tot["enum_targets"],
             "fault_enumeration_executions": tot["enum_execs"],
             "runs_per_hour": int(tot["executions"] / max(wall, 1e-6) * 3600),
